@@ -3,3 +3,16 @@ From Resolvo Require Import Async.HistoryProofs.
 
 Theorem C11_eager_checker : forall U h, eagerb U [] [] h = true <-> Eager U h.
 Proof. exact eagerb_spec. Qed.
+
+(* ---- the encoder model, for every completion order (Async/Encoder.v; tied to
+   encoding.rs clause for clause under gated schedules): at every point of a
+   run, once the dependencies of a solvable have been handled, a candidates
+   future for every package they mention is pending or has completed ---- *)
+From Resolvo Require Import Async.EncoderClosed.
+
+Theorem C11_model_eager : forall U P c evs st work,
+  enc_run U P (estate0 c) [] [] evs = Some (st, work) ->
+  forall so, In so (e_sols st) ->
+  In (TDeps so) work \/
+  forall n, In n (mentioned U P so) -> In (TCands n) work \/ In n (c_cands (e_cache st)).
+Proof. exact enc_eager. Qed.
